@@ -2,3 +2,4 @@ import IrVerif.Props.C17
 open IrVerif.Scope
 #print axioms C17_total
 #print axioms C17_consistent
+#print axioms C17_idempotent_partial
